@@ -141,6 +141,10 @@ func (s *Sockets) serve(c *net.UnixConn, master bool) {
 		if _, err := readFull(c, buf); err != nil {
 			return
 		}
+		if !master && s.Fake.NextFault(bare) == FaultEOF {
+			s.Fake.Lose(bare)
+			return
+		}
 		var out string
 		closeAfter := false
 		switch {
